@@ -40,7 +40,7 @@ func genC06Case(t *rapid.T) SSOCase {
 		n := rapid.IntRange(1, 2).Draw(t, "ndefects")
 		for i := 0; i < n; i++ {
 			d := pick(t, "defect", c06Catalogue)
-			if (d.Name == "bad-deflate" || d.Name == "sigalg-without-signature") && c.Tr.Binding != "redirect" {
+			if d.Name == "bad-deflate" && c.Tr.Binding != "redirect" {
 				c.Tr.Binding = "redirect"
 			}
 			c.Defects = append(c.Defects, d)
